@@ -1,7 +1,8 @@
 //@ unit oneshot
-// Side-car contracts for OneShotState::handle_release (keyberon/src/layout.rs), property C06.
-// Unbounded counterpart of the bounded Kani harness c06_b_release: every table size up to the
-// real capacity 16, including the wrap of a full deferred-release table.
+// Side-car contracts for OneShotState::{handle_release, handle_press, tick_osh}
+// (keyberon/src/layout.rs), property C06.  Unbounded counterparts of the bounded Kani harnesses
+// c06_b_release / c06_b_press_* / c06_b_tick: every table size up to the real capacity 16,
+// including the wrap of a full table.
 
 //@ raw
 // R3: arraydeque::ArrayDeque with behavior::Wrapping, ASSUMED contract (arraydeque 0.5.1):
@@ -18,8 +19,50 @@ pub mod arraydeque {
         v: Vec<T>,
         b: core::marker::PhantomData<B>,
     }
+    // what a borrowed / draining iterator will yield, front to back
+    #[verifier::external_body]
+    #[verifier::reject_recursive_types(T)]
+    pub struct Iter<T> { v: Vec<T> }
+    impl<T> Iter<T> {
+        pub uninterp spec fn view(&self) -> Seq<T>;
+        #[verifier::external_body]
+        pub fn copied(self) -> (r: Iter<T>)
+            ensures r.view() == self.view(),
+        { unimplemented!() }
+        // FromIterator for the fixed-capacity heapless::Vec panics beyond its capacity
+        #[verifier::external_body]
+        pub fn collect<C: FromIter<T>>(self) -> (r: C)
+            requires self.view().len() <= C::cap(),
+            ensures r.items() == self.view(),
+        { unimplemented!() }
+    }
+    pub trait FromIter<T>: Sized {
+        spec fn items(&self) -> Seq<T>;
+        spec fn cap() -> nat;
+    }
+    // the elements retain() keeps, given the decisions its predicate returned one by one
+    pub open spec fn pick<T>(s: Seq<T>, d: Seq<bool>) -> Seq<T>
+        decreases s.len(),
+    {
+        if s.len() == 0 || d.len() != s.len() { Seq::empty() }
+        else if d.last() { pick(s.drop_last(), d.drop_last()).push(s.last()) }
+        else { pick(s.drop_last(), d.drop_last()) }
+    }
+    // Wrapping: the newest N elements survive
+    pub open spec fn newest<T>(s: Seq<T>, n: nat) -> Seq<T> {
+        if s.len() <= n { s } else { s.subrange(s.len() - n, s.len() as int) }
+    }
     impl<T, const N: usize> ArrayDeque<T, N, behavior::Wrapping> {
         pub uninterp spec fn view(&self) -> Seq<T>;
+        // capacity: an ArrayDeque never holds more than N elements
+        #[verifier::external_body]
+        pub proof fn axiom_capacity(&self)
+            ensures self.view().len() <= N,
+        { unimplemented!() }
+        #[verifier::external_body]
+        pub fn new() -> (r: Self)
+            ensures r.view() == Seq::<T>::empty(),
+        { unimplemented!() }
         #[verifier::external_body]
         pub fn is_empty(&self) -> (r: bool)
             ensures r == (self.view().len() == 0),
@@ -34,8 +77,47 @@ pub mod arraydeque {
                 old(self).view().len() < N ==> r.is_none() && final(self).view() == old(self).view().push(x),
                 old(self).view().len() >= N ==> r == Some(old(self).view()[0]) && final(self).view() == old(self).view().drop_first().push(x),
         { unimplemented!() }
+        #[verifier::external_body]
+        pub fn iter(&self) -> (r: Iter<T>)
+            ensures r.view() == self.view(),
+        { unimplemented!() }
+        #[verifier::external_body]
+        pub fn extend(&mut self, it: Iter<T>)
+            ensures final(self).view() == newest(old(self).view() + it.view(), N as nat),
+        { unimplemented!() }
+        #[verifier::external_body]
+        pub fn clear(&mut self)
+            ensures final(self).view() == Seq::<T>::empty(),
+        { unimplemented!() }
+        #[verifier::external_body]
+        pub fn drain(&mut self, r: core::ops::RangeFull) -> (d: Iter<T>)
+            ensures d.view() == old(self).view(), final(self).view() == Seq::<T>::empty(),
+        { unimplemented!() }
+        // retain calls the predicate once on each element, front to back, and keeps those for
+        // which it answered true
+        #[verifier::external_body]
+        pub fn retain<F: FnMut(&T) -> bool>(&mut self, f: F)
+            requires forall|x: &T| f.requires((x,)),
+            ensures exists|d: Seq<bool>| #![trigger d.len()] d.len() == old(self).view().len()
+                && (forall|i: int| #![trigger d[i]] 0 <= i < d.len() ==> f.ensures((&old(self).view()[i],), d[i]))
+                && final(self).view() == pick(old(self).view(), d),
+        { unimplemented!() }
     }
 }
+pub mod heapless {
+    use vstd::prelude::*;
+    #[verifier::external_body]
+    #[verifier::reject_recursive_types(T)]
+    pub struct Vec<T, const N: usize> { v: std::vec::Vec<T> }
+    impl<T, const N: usize> Vec<T, N> {
+        pub uninterp spec fn view(&self) -> Seq<T>;
+    }
+    impl<T, const N: usize> crate::arraydeque::FromIter<T> for Vec<T, N> {
+        open spec fn items(&self) -> Seq<T> { self.view() }
+        open spec fn cap() -> nat { N as nat }
+    }
+}
+use heapless::Vec;
 use arraydeque::ArrayDeque;
 
 //@ item keyberon/src/layout.rs type KCoord
@@ -81,3 +163,147 @@ spec fn release_variant(c: OneShotEndConfig) -> bool {
             && (old(self).released_keys@.len() < 16 ==> r.1.is_none() && final(self).released_keys@ == old(self).released_keys@.push(ij))
             && (old(self).released_keys@.len() == 16 ==> r.1 == Some(old(self).released_keys@[0])
                 && final(self).released_keys@ == old(self).released_keys@.drop_first().push(ij)),
+
+//@ item keyberon/src/layout.rs enum OneShotHandlePressKey
+//@ item keyberon/src/layout.rs type OneShotCoords
+//@ item keyberon/src/layout.rs type ReleasedOneShotKeys
+
+//@ raw
+spec fn press_variant(c: OneShotEndConfig) -> bool {
+    c == OneShotEndConfig::EndOnFirstPress || c == OneShotEndConfig::EndOnFirstPressOrRepress
+}
+spec fn repress_variant(c: OneShotEndConfig) -> bool {
+    c == OneShotEndConfig::EndOnFirstReleaseOrRepress || c == OneShotEndConfig::EndOnFirstPressOrRepress
+}
+spec fn umin(a: u16, b: u16) -> u16 { if a <= b { a } else { b } }
+// core::cmp::min, ASSUMED (std): at u16 it is the smaller of the two
+pub uninterp spec fn min_spec<T>(a: T, b: T) -> T;
+#[verifier::allow(undeclared_external_trait)]
+pub assume_specification<T> [core::cmp::min] (a: T, b: T) -> (r: T)
+    where T: core::cmp::Ord + core::marker::Destruct,
+    ensures r == min_spec(a, b);
+pub uninterp spec fn max_spec<T>(a: T, b: T) -> T;
+#[verifier::allow(undeclared_external_trait)]
+pub assume_specification<T> [core::cmp::max] (a: T, b: T) -> (r: T)
+    where T: core::cmp::Ord + core::marker::Destruct,
+    ensures r == max_spec(a, b);
+#[verifier::external_body]
+broadcast proof fn axiom_max_u16(a: u16, b: u16)
+    ensures #[trigger] max_spec::<u16>(a, b) == (if a >= b { a } else { b }),
+{ unimplemented!() }
+#[verifier::external_body]
+broadcast proof fn axiom_min_u16(a: u16, b: u16)
+    ensures #[trigger] min_spec::<u16>(a, b) == umin(a, b),
+{ unimplemented!() }
+
+// what retain(|c| *c != x) leaves: the other coordinates, in order
+proof fn lemma_pick_filter(s: Seq<KCoord>, d: Seq<bool>, x: KCoord)
+    requires d.len() == s.len(), forall|i: int| 0 <= i < s.len() ==> d[i] == (s[i] != x),
+    ensures arraydeque::pick(s, d) == s.filter(|c: KCoord| c != x),
+    decreases s.len(),
+{
+    reveal(Seq::filter);
+    if s.len() == 0 {
+    } else {
+        lemma_pick_filter(s.drop_last(), d.drop_last(), x);
+    }
+}
+
+//@ item keyberon/src/layout.rs fn handle_press in `OneShotState`
+//@@ wrap impl OneShotState
+//@@ resub R12 1 /\|coord\| (\*coord [!=]= pressed_coord)\)/ => `|coord: &KCoord| -> (b: bool) ensures b == (\1) { \1 })`
+//@@ ret r
+//@@ spec
+    ensures
+        // frame: a press never changes the active set, the variant, or the configured delay
+        final(self).keys@ == old(self).keys@,
+        final(self).end_config == old(self).end_config,
+        final(self).pause_input_processing_delay == old(self).pause_input_processing_delay,
+        final(self).ticks_to_ignore_events == old(self).ticks_to_ignore_events,
+        // no one-shot active (or presses being ignored): nothing happens, nothing is reported
+        old(self).keys@.len() == 0 || old(self).ticks_to_ignore_events > 0 ==> r@.len() == 0
+            && final(self).released_keys@ == old(self).released_keys@
+            && final(self).other_pressed_keys@ == old(self).other_pressed_keys@
+            && final(self).timeout == old(self).timeout
+            && final(self).release_on_next_tick == old(self).release_on_next_tick
+            && final(self).pause_input_processing_ticks == old(self).pause_input_processing_ticks,
+        // a one-shot key is pressed (again): it combines - timers and remembered keys untouched;
+        // its deferred release is forgotten (held one-shot acts as the plain key); the pcancel
+        // variants end on re-press of an ACTIVE one-shot key and report every active key
+        old(self).keys@.len() > 0 && old(self).ticks_to_ignore_events == 0 && key is OneShotKey ==> {
+            let c = key->OneShotKey_0;
+            let cancel = repress_variant(old(self).end_config) && old(self).keys@.contains(c);
+            &&& final(self).released_keys@ == old(self).released_keys@.filter(|x: KCoord| x != c)
+            &&& final(self).other_pressed_keys@ == old(self).other_pressed_keys@
+            &&& final(self).timeout == old(self).timeout
+            &&& final(self).pause_input_processing_ticks == old(self).pause_input_processing_ticks
+            &&& final(self).release_on_next_tick == (old(self).release_on_next_tick || cancel)
+            &&& r@ == (if cancel { old(self).keys@ } else { Seq::<KCoord>::empty() })
+        },
+        // the first following other key: reported the whole active set (it is modified by every
+        // active one-shot key); press variants end within the rapid-event delay and pause input
+        // for that long; release variants remember the key so that its release ends the one-shot
+        old(self).keys@.len() > 0 && old(self).ticks_to_ignore_events == 0 && key is Other ==> {
+            let c = key->Other_0;
+            &&& r@ == old(self).keys@
+            &&& final(self).released_keys@ == old(self).released_keys@
+            &&& final(self).release_on_next_tick == old(self).release_on_next_tick
+            &&& press_variant(old(self).end_config) ==>
+                    final(self).timeout == umin(old(self).pause_input_processing_delay, old(self).timeout)
+                    && final(self).pause_input_processing_ticks == old(self).pause_input_processing_delay
+                    && final(self).other_pressed_keys@ == old(self).other_pressed_keys@
+            &&& !press_variant(old(self).end_config) ==>
+                    final(self).timeout == old(self).timeout
+                    && final(self).pause_input_processing_ticks == old(self).pause_input_processing_ticks
+                    && final(self).other_pressed_keys@.last() == c
+                    && (old(self).other_pressed_keys@.len() < 16 ==>
+                        final(self).other_pressed_keys@ == old(self).other_pressed_keys@.push(c))
+        },
+//@@ before 1 `match key {`
+    proof { self.keys.axiom_capacity(); broadcast use axiom_min_u16, axiom_max_u16; }
+    let ghost rk0 = self.released_keys@;
+//@@ after 1 `pressed_coord });`
+    proof {
+        let d = choose|d: Seq<bool>| #![trigger d.len()] d.len() == rk0.len()
+            && (forall|i: int| #![trigger d[i]] 0 <= i < d.len() ==> (rk0[i] != pressed_coord) == d[i])
+            && self.released_keys@ == arraydeque::pick(rk0, d);
+        lemma_pick_filter(rk0, d, pressed_coord);
+    }
+
+//@ item keyberon/src/layout.rs fn tick_osh in `OneShotState`
+//@@ wrap impl OneShotState
+//@@ ret r
+//@@ spec
+    ensures
+        final(self).end_config == old(self).end_config,
+        final(self).pause_input_processing_delay == old(self).pause_input_processing_delay,
+        // nothing active: a tick is a no-op
+        old(self).keys@.len() == 0 ==> r.is_none()
+            && final(self).keys@ == old(self).keys@
+            && final(self).released_keys@ == old(self).released_keys@
+            && final(self).other_pressed_keys@ == old(self).other_pressed_keys@
+            && final(self).timeout == old(self).timeout
+            && final(self).release_on_next_tick == old(self).release_on_next_tick
+            && final(self).pause_input_processing_ticks == old(self).pause_input_processing_ticks
+            && final(self).ticks_to_ignore_events == old(self).ticks_to_ignore_events,
+        // active: it ends on this tick exactly when an end was requested or the last millisecond
+        // of the timeout elapses; ending clears EVERYTHING (it affects nothing after this point)
+        // and hands back every deferred release, oldest first
+        old(self).keys@.len() > 0 && (old(self).release_on_next_tick || old(self).timeout <= 1) ==>
+            r.is_some() && r->Some_0@ == old(self).released_keys@
+            && final(self).keys@.len() == 0 && final(self).released_keys@.len() == 0
+            && final(self).other_pressed_keys@.len() == 0
+            && final(self).timeout == 0 && !final(self).release_on_next_tick
+            && final(self).pause_input_processing_ticks == 0 && final(self).ticks_to_ignore_events == 0,
+        // active and not ending: stays active, one millisecond closer to expiry
+        old(self).keys@.len() > 0 && !old(self).release_on_next_tick && old(self).timeout > 1 ==>
+            r.is_none()
+            && final(self).keys@ == old(self).keys@
+            && final(self).released_keys@ == old(self).released_keys@
+            && final(self).other_pressed_keys@ == old(self).other_pressed_keys@
+            && final(self).timeout == old(self).timeout - 1
+            && !final(self).release_on_next_tick
+            && final(self).pause_input_processing_ticks == old(self).pause_input_processing_ticks
+            && final(self).ticks_to_ignore_events == (if old(self).ticks_to_ignore_events == 0 { 0 } else { old(self).ticks_to_ignore_events - 1 }) as u16,
+//@@ before 1 `Some(self.released_keys.drain(..).collect())`
+    proof { self.released_keys.axiom_capacity(); }
